@@ -31,6 +31,7 @@ import (
 	"github.com/foxcpp/maddy/framework/log"
 	"github.com/foxcpp/maddy/framework/module"
 	moddkim "github.com/foxcpp/maddy/internal/modify/dkim"
+	"github.com/foxcpp/maddy/internal/msgpipeline"
 	"github.com/foxcpp/maddy/internal/target/queue"
 	tsmtp "github.com/foxcpp/maddy/internal/target/smtp"
 	"github.com/foxcpp/maddy/verifharness/scripted"
@@ -47,6 +48,9 @@ type Shape struct {
 	Key    string   `json:"key"`
 	Eai    bool     `json:"eai"`
 	Idn    bool     `json:"idn"`
+	// Via: "" / "direct" = the modifier is called by the harness; "pipe_body" / "pipe_na" = the message goes
+	// through a real msgpipeline (check adding an over-signed field + modify.dkim + queue) by Body / BodyNonAtomic
+	Via string `json:"via"`
 }
 
 type Row struct {
@@ -152,12 +156,12 @@ type capture struct {
 
 type capSession struct{ c *capture }
 
-func (c *capture) NewSession(*smtp.Conn) (smtp.Session, error)          { return &capSession{c}, nil }
-func (s *capSession) AuthMechanisms() []string                          { return nil }
-func (s *capSession) Mail(string, *smtp.MailOptions) error              { return nil }
-func (s *capSession) Rcpt(string, *smtp.RcptOptions) error              { return nil }
-func (s *capSession) Reset()                                            {}
-func (s *capSession) Logout() error                                     { return nil }
+func (c *capture) NewSession(*smtp.Conn) (smtp.Session, error) { return &capSession{c}, nil }
+func (s *capSession) AuthMechanisms() []string                 { return nil }
+func (s *capSession) Mail(string, *smtp.MailOptions) error     { return nil }
+func (s *capSession) Rcpt(string, *smtp.RcptOptions) error     { return nil }
+func (s *capSession) Reset()                                   {}
+func (s *capSession) Logout() error                            { return nil }
 func (s *capSession) Data(r io.Reader) error {
 	b, err := io.ReadAll(r)
 	if err != nil {
@@ -176,6 +180,7 @@ type env struct {
 	mods  map[string]*moddkim.Modifier
 	pubs  map[string]crypto.PublicKey
 	txt   map[string]string
+	extra int // messages the next hop got in addition to the first one during the latest relay
 }
 
 func newEnv(t *testing.T) *env {
@@ -279,7 +284,90 @@ func libVerify(msg []byte, pub crypto.PublicKey) error {
 // relay: accept into a queue whose target defers, stop it, restart on the same spool with the
 // real SMTP client target behind it; returns what the next hop received (nil: harness time-out).
 func relay(t *testing.T, e *env, meta *module.MsgMetadata, from string, hdr textproto.Header, bodyBuf buffer.Buffer) ([]byte, string) {
-	ctx := context.Background()
+	return relayF(t, e, meta, from, hdr, bodyBuf, false)
+}
+
+func relayF(t *testing.T, e *env, meta *module.MsgMetadata, from string, hdr textproto.Header, bodyBuf buffer.Buffer, fault bool) ([]byte, string) {
+	return relayVia(t, e, fault, func(q module.DeliveryTarget) {
+		ctx := context.Background()
+		d, err := q.Start(ctx, meta, from)
+		if err != nil {
+			t.Fatal(err)
+		}
+		if err := d.AddRcpt(ctx, "rcpt@nexthop.example", smtp.RcptOptions{}); err != nil {
+			t.Fatal(err)
+		}
+		if err := d.Body(ctx, hdr, bodyBuf); err != nil {
+			t.Fatal(err)
+		}
+		if err := d.Commit(ctx); err != nil {
+			t.Fatal(err)
+		}
+	})
+}
+
+// faultOnce hands the first delivery a body whose reader fails half-way (an I/O error on the spool's
+// body file in the middle of DATA); later deliveries are untouched.
+type faultOnce struct {
+	inner module.DeliveryTarget
+	mu    sync.Mutex
+	done  bool
+}
+
+type faultDelivery struct {
+	module.Delivery
+	f *faultOnce
+}
+
+type halfBuf struct{ buffer.Buffer }
+
+type halfReader struct {
+	io.ReadCloser
+	left int
+}
+
+func (h *halfReader) Read(p []byte) (int, error) {
+	if h.left <= 0 {
+		return 0, errors.New("input/output error (scripted)")
+	}
+	if len(p) > h.left {
+		p = p[:h.left]
+	}
+	n, err := h.ReadCloser.Read(p)
+	h.left -= n
+	return n, err
+}
+
+func (b halfBuf) Open() (io.ReadCloser, error) {
+	r, err := b.Buffer.Open()
+	if err != nil {
+		return nil, err
+	}
+	return &halfReader{ReadCloser: r, left: b.Buffer.Len() / 2}, nil
+}
+
+func (f *faultOnce) Start(ctx context.Context, m *module.MsgMetadata, from string) (module.Delivery, error) {
+	d, err := f.inner.Start(ctx, m, from)
+	if err != nil {
+		return nil, err
+	}
+	return &faultDelivery{Delivery: d, f: f}, nil
+}
+
+func (d *faultDelivery) Body(ctx context.Context, h textproto.Header, b buffer.Buffer) error {
+	d.f.mu.Lock()
+	first := !d.f.done
+	d.f.done = true
+	d.f.mu.Unlock()
+	if first && b.Len() >= 2 {
+		return d.Delivery.Body(ctx, h, halfBuf{b})
+	}
+	return d.Delivery.Body(ctx, h, b)
+}
+
+// relayVia: `accept` puts one message into the queue it is given (directly or through a pipeline).
+// fault: the first transmission attempt towards the next hop suffers a body read error in mid-DATA.
+func relayVia(t *testing.T, e *env, fault bool, accept func(q module.DeliveryTarget)) ([]byte, string) {
 	spool, err := os.MkdirTemp(e.dir, "spool")
 	if err != nil {
 		t.Fatal(err)
@@ -297,32 +385,44 @@ func relay(t *testing.T, e *env, meta *module.MsgMetadata, from string, hdr text
 		return q
 	}
 	q1 := mk(defer1, time.Hour)
-	d, err := q1.Start(ctx, meta, from)
-	if err != nil {
-		t.Fatal(err)
-	}
-	if err := d.AddRcpt(ctx, "rcpt@nexthop.example", smtp.RcptOptions{}); err != nil {
-		t.Fatal(err)
-	}
-	if err := d.Body(ctx, hdr, bodyBuf); err != nil {
-		t.Fatal(err)
-	}
-	if err := d.Commit(ctx); err != nil {
-		t.Fatal(err)
-	}
+	accept(q1)
 	deadline := time.Now().Add(120 * time.Second)
 	for defer1.Att() == 0 && time.Now().Before(deadline) {
 		time.Sleep(time.Millisecond)
 	}
 	q1.Close() // waits for the deferred attempt; the message stays in the spool
-	q2 := mk(e.down, 0)
-	defer q2.Close()
+	var down module.DeliveryTarget = e.down
+	if fault {
+		down = &faultOnce{inner: e.down}
+	}
+	q2 := mk(down, 0)
+	var got []byte
 	select {
-	case got := <-e.cap.msgs:
-		return got, ""
+	case got = <-e.cap.msgs:
 	case <-time.After(150 * time.Second):
+		q2.Close()
 		return nil, "harness time-out waiting for the next hop"
 	}
+	// let the queue finish (a retry after a failed first transmission), then count what else arrived
+	deadline = time.Now().Add(60 * time.Second)
+	for time.Now().Before(deadline) {
+		if ents, _ := os.ReadDir(spool); len(ents) == 0 {
+			break
+		}
+		time.Sleep(time.Millisecond)
+	}
+	q2.Close()
+	e.extra = 0
+	for {
+		select {
+		case <-e.cap.msgs:
+			e.extra++
+			continue
+		default:
+		}
+		break
+	}
+	return got, ""
 }
 
 func runRow(t *testing.T, e *env, r Row, tr *vtrace.Tracer, seed int64) {
@@ -337,6 +437,10 @@ func runRow(t *testing.T, e *env, r Row, tr *vtrace.Tracer, seed int64) {
 	if err != nil {
 		t.Fatalf("harness header does not parse: %v", err)
 	}
+	if r.In.Via == "pipe_body" || r.In.Via == "pipe_na" {
+		runPipeRow(t, e, r, tr, domain, from, rawHdr, hdr, body, firstField)
+		return
+	}
 	m, pub := e.modifier(t, r.In, domain)
 	ctx := context.Background()
 	meta := &module.MsgMetadata{ID: fmt.Sprintf("dkim%d", r.ID), OriginalFrom: from, SMTPOpts: smtp.MailOptions{UTF8: r.In.Eai}}
@@ -349,8 +453,8 @@ func runRow(t *testing.T, e *env, r Row, tr *vtrace.Tracer, seed int64) {
 	}
 	bodyBuf := buffer.MemoryBuffer{Slice: body}
 	out := vtrace.Ev{"delivered": false, "signed": false, "verifiedIndep": false, "verifiedLib": false,
-		"tamper": map[string]bool{"remove": false, "alter": false, "add_oversigned": false},
-		"hdrEqual": false, "bodyEqual": false, "note": ""}
+		"tamper":   map[string]bool{"remove": false, "alter": false, "add_oversigned": false},
+		"hdrEqual": false, "bodyEqual": false, "note": "", "copies": 0, "fault": false}
 	emit := func() { tr.Emit("Row", vtrace.Ev{"in": r.In, "out": out}) }
 	if err := st.RewriteBody(ctx, &hdr, bodyBuf); err != nil {
 		out["note"] = "sign: " + err.Error()
@@ -363,17 +467,27 @@ func runRow(t *testing.T, e *env, r Row, tr *vtrace.Tracer, seed int64) {
 	textproto.WriteHeader(&signed, hdr)
 	signed.Write(body)
 
-	got, note := relay(t, e, meta, from, hdr, bodyBuf)
+	// every fourth message: the first transmission towards the next hop breaks in mid-DATA (body read error)
+	fault := r.ID%4 == 0
+	got, note := relayF(t, e, meta, from, hdr, bodyBuf, fault)
 	if got == nil {
 		out["note"] = note
 		tr.Emit("Timeout", vtrace.Ev{"in": r.In})
 		return
 	}
 	out["delivered"] = true
+	out["copies"] = 1 + e.extra
+	out["fault"] = fault
+	judge(out, got, pub, body, firstField, signed.Bytes()[:bytes.Index(signed.Bytes(), []byte("\r\n\r\n"))+4])
+	emit()
+}
+
+// judge fills the verification and tampering outcomes of a row from what the next hop received.
+func judge(out vtrace.Ev, got []byte, pub crypto.PublicKey, body []byte, firstField string, wantHdr []byte) {
 	// what arrived = Received-less? the SMTP client adds nothing; compare from the signature on
 	_, gotBody, _ := splitMessage(got)
 	out["bodyEqual"] = bytes.Equal(gotBody, body)
-	out["hdrEqual"] = bytes.Contains(got, signed.Bytes()[:bytes.Index(signed.Bytes(), []byte("\r\n\r\n"))+4])
+	out["hdrEqual"] = bytes.Contains(got, wantHdr)
 	if err := Verify(got, pub); err == nil {
 		out["verifiedIndep"] = true
 	} else {
@@ -415,6 +529,78 @@ func runRow(t *testing.T, e *env, r Row, tr *vtrace.Tracer, seed int64) {
 	added := append([]byte("Subject: injected by the next hop\r\n"), got...)
 	tam["add_oversigned"] = Verify(added, pub) == nil
 	out["tamper"] = tam
+}
+
+// runPipeRow: the message is signed inside a real pipeline (check that adds an over-signed field,
+// modify.dkim, queue) entered by Body or BodyNonAtomic.
+func runPipeRow(t *testing.T, e *env, r Row, tr *vtrace.Tracer, domain, from string, rawHdr []byte, hdr textproto.Header, body []byte, firstField string) {
+	registerPipeModules()
+	out := vtrace.Ev{"delivered": false, "signed": false, "verifiedIndep": false, "verifiedLib": false,
+		"tamper":   map[string]bool{"remove": false, "alter": false, "add_oversigned": false},
+		"hdrEqual": false, "bodyEqual": false, "note": "", "copies": 0, "fault": false}
+	emit := func() { tr.Emit("Row", vtrace.Ev{"in": r.In, "out": out}) }
+	kdir := filepath.Join(e.dir, fmt.Sprintf("pipekeys-%s-%v", r.In.Key, r.In.Idn))
+	nodes := []config.Node{
+		{Name: "check", Children: []config.Node{{Name: "verif_addhdr"}}},
+		{Name: "modify", Children: []config.Node{{Name: "dkim", Children: []config.Node{
+			{Name: "domains", Args: []string{domain}},
+			{Name: "selector", Args: []string{"sel"}},
+			{Name: "key_path", Args: []string{filepath.Join(kdir, "{domain}.key")}},
+			{Name: "newkey_algo", Args: []string{r.In.Key}},
+			{Name: "header_canon", Args: []string{r.In.Hc}},
+			{Name: "body_canon", Args: []string{r.In.Bc}},
+		}}}},
+		{Name: "default_source", Children: []config.Node{{Name: "default_destination", Children: []config.Node{
+			{Name: "deliver_to", Args: []string{"verifdkq", "Q"}}}}}},
+	}
+	p, err := msgpipeline.New(map[string]interface{}{"hostname": "mx.example.org"}, nodes)
+	if err != nil {
+		t.Fatalf("pipeline: %v", err)
+	}
+	p.Log = log.Logger{Out: log.NopOutput{}}
+	files, _ := filepath.Glob(filepath.Join(kdir, "*.key"))
+	if len(files) != 1 {
+		t.Fatalf("expected one key file in %s, got %v", kdir, files)
+	}
+	blob, _ := os.ReadFile(files[0])
+	block, _ := pem.Decode(blob)
+	priv, err := x509.ParsePKCS8PrivateKey(block.Bytes)
+	if err != nil {
+		t.Fatal(err)
+	}
+	pub := priv.(crypto.Signer).Public()
+	meta := &module.MsgMetadata{ID: fmt.Sprintf("dkimp%d", r.ID), OriginalFrom: from, SMTPOpts: smtp.MailOptions{UTF8: r.In.Eai}}
+	bodyBuf := buffer.MemoryBuffer{Slice: body}
+	got, note := relayVia(t, e, false, func(q module.DeliveryTarget) {
+		pipeMu.Lock()
+		pipeTgt = q
+		pipeMu.Unlock()
+		ctx := context.Background()
+		d, err := p.Start(ctx, meta, from)
+		if err != nil {
+			t.Fatal(err)
+		}
+		if err := d.AddRcpt(ctx, "rcpt@nexthop.example", smtp.RcptOptions{}); err != nil {
+			t.Fatal(err)
+		}
+		if r.In.Via == "pipe_na" {
+			d.(module.PartialDelivery).BodyNonAtomic(ctx, nullCollector{}, hdr, bodyBuf)
+		} else if err := d.Body(ctx, hdr, bodyBuf); err != nil {
+			t.Fatal(err)
+		}
+		if err := d.Commit(ctx); err != nil {
+			t.Fatal(err)
+		}
+	})
+	if got == nil {
+		out["note"] = note
+		tr.Emit("Timeout", vtrace.Ev{"in": r.In})
+		return
+	}
+	out["delivered"] = true
+	out["copies"] = 1 + e.extra
+	out["signed"] = bytes.Contains(got[:bytes.Index(got, []byte("\r\n\r\n"))+2], []byte("DKIM-Signature:"))
+	judge(out, got, pub, body, firstField, rawHdr[:len(rawHdr)-2])
 	emit()
 }
 
